@@ -19,3 +19,4 @@ open Neutrino.Store
 #print axioms Neutrino.Store.C07_trans_ancestors
 #print axioms Neutrino.Store.C07_trans_FetchFilterHeaderAncestors
 #print axioms Neutrino.Store.C07_trans_readHeadersFromFile
+#print axioms Neutrino.Store.C07_trans_HeaderType_Size
